@@ -34,8 +34,45 @@ class SimRegistry {
   }
   unregister(token) { const n = this.entries.length; this.entries = this.entries.filter((e) => e.token !== token); return this.entries.length !== n; }
 }
-function registriesReset() { for (const r of registries) r.entries = []; pending = []; regSeq = 0; }
+function registriesReset() { for (const r of registries) r.entries = []; pending = []; regSeq = 0; owners = []; ownersOf = new Map(); }
+// ---- owner tracking (reachability of whatever is responsible for a wasm buffer) --------------------------
+// The bindings tie a borrowed buffer to an owner object (a CleanupArena created for a struct's slice fields, or the
+// DiplomatBuf handed to the collector) and put that owner on the edge arrays. When the owner is collected the buffer's
+// memory is released by the owner's finalizer — on some paths of this tree that finalizer throws or is never
+// registered, so the memory leaks instead and a missing attachment would never show as a free. The owner being
+// collected while a borrower is still held is the violation either way, so it is observed directly: `alloc` of the
+// generated runtime's arena / grip classes is wrapped (observation only) to learn who owns which buffer.
+let owners = [];           // { ref: WeakRef(owner), dead }
+let ownersOf = new Map();  // buffer address -> [owner records]
+function noteOwner(ownerObj, ptr, recs) {
+  if (typeof ptr !== "number" || (typeof ownerObj !== "object" && typeof ownerObj !== "function") || ownerObj === null) return;
+  let r = recs.get(ownerObj);
+  if (!r || !owners.includes(r)) { r = { ref: new RealWeakRef(ownerObj), dead: false }; recs.set(ownerObj, r); owners.push(r); }
+  if (!ownersOf.has(ptr)) ownersOf.set(ptr, []);
+  if (!ownersOf.get(ptr).includes(r)) ownersOf.get(ptr).push(r);
+}
+function installOwnerTracking(rt) {
+  const recs = new WeakMap();
+  const wrap = (cls, label, ownerIsItem) => {
+    if (!cls || !cls.prototype || typeof cls.prototype.alloc !== "function") { inc("owner_tracking_unavailable_" + label); return; }
+    const real = cls.prototype.alloc;
+    cls.prototype.alloc = function (item) {
+      try { noteOwner(ownerIsItem ? item : this, item && item.ptr, recs); } catch (e) { /* observation only */ }
+      return real.call(this, item);
+    };
+  };
+  wrap(rt.CleanupArena, "arena", false);
+  wrap(rt.GarbageCollectorGrip, "grip", true);
+}
+function collectDeadOwners() {
+  for (const o of owners) if (!o.dead && o.ref.deref() === undefined) { o.dead = true; inc("buffer_owner_collected"); }
+}
+function ownerGone(alloc) {
+  const rs = ownersOf.get(alloc.addr);
+  return !!rs && rs.length > 0 && rs.every((r) => r.dead);
+}
 function collectDead() {
+  collectDeadOwners();
   let n = 0;
   for (const r of registries) for (const e of r.entries) if (!e.queued && e.ref.deref() === undefined) { e.queued = true; pending.push(e); n++; }
   pending.sort((a, b) => a.seq - b.seq);
@@ -377,6 +414,7 @@ function checkUse(held, slot, why) {
   for (const y of required(h.ent)) {
     if (y.kind === "obj" && y.destroyed) { violate("S1-premature-free", `${describe(h.ent)} is still held and may borrow from ${describe(y)}, which has been destroyed (${why})`); return; }
     if (y.kind === "buf" && !bufIntact(y)) { violate("S1-premature-free", `${describe(h.ent)} is still held and may borrow from ${describe(y)}, which has been freed (${why})`); return; }
+    if (y.kind === "buf" && y.alloc && !y.alloc.freed && ownerGone(y.alloc)) { violate("S1-lender-unreachable", `${describe(h.ent)} is still held and may borrow from ${describe(y)}, whose owner (arena / buffer object) has been collected: nothing the held value references keeps it (${why})`); return; }
   }
 }
 
@@ -575,6 +613,7 @@ async function main() {
     if (!classes[t.name]) { console.error("HARNESS-ERROR generated module has no class " + t.name); process.exit(2); }
   }
   if (W.violation) { console.error("HARNESS-ERROR while importing generated modules: " + W.violation.detail); process.exit(2); }
+  try { installOwnerTracking(await import(pathToFileURL(path.join(dir, "api", "diplomat-runtime.mjs")).href)); } catch (e) { inc("owner_tracking_unavailable_import"); }
   if (kv.replay) {
     const rep = JSON.parse(fs.readFileSync(kv.replay, "utf8"));
     const o = await execute(spec, classes, rep.trace);
